@@ -37,6 +37,7 @@ type world struct {
 	recFuncs map[*ssa.Function]bool
 	sccID map[*ssa.Function]int
 	globals map[string]int
+	constGlobals map[*ssa.Global]*ssa.Const // package-level variables that are initialised with a constant and never written again
 	specHeapSorts map[string]string
 	loadSecs  float64
 }
@@ -127,6 +128,7 @@ func loadWorld(repo string, patterns []string, tags string) (*world, error) {
 		w.funcs[fn.String()] = fn
 	}
 	w.indexTypes()
+	w.findConstGlobals()
 	return w, nil
 }
 
@@ -364,4 +366,76 @@ func (c *smtctx) zero(t types.Type) string {
 		return fmt.Sprintf("((as const %s) %s)", c.arraySort(t, u), c.zero(u.Elem()))
 	}
 	return "nil"
+}
+
+// findConstGlobals: a package-level variable of the module whose only write anywhere in the module is the
+// constant store in its package initialiser, and whose address is used for nothing but loads, is a constant.
+func (w *world) findConstGlobals() {
+	w.constGlobals = map[*ssa.Global]*ssa.Const{}
+	initStore := map[*ssa.Global]*ssa.Const{}
+	bad := map[*ssa.Global]bool{}
+	for _, fn := range w.funcs {
+		isInit := fn.Name() == "init" && fn.Signature.Recv() == nil
+		for _, b := range fn.Blocks {
+			for _, ins := range b.Instrs {
+				switch x := ins.(type) {
+				case *ssa.Store:
+					if g, ok := x.Addr.(*ssa.Global); ok {
+						if c, isC := x.Val.(*ssa.Const); isC && isInit {
+							if _, dup := initStore[g]; dup {
+								bad[g] = true
+							}
+							initStore[g] = c
+						} else {
+							bad[g] = true
+						}
+						if g2, ok2 := x.Val.(*ssa.Global); ok2 {
+							bad[g2] = true
+						}
+						continue
+					}
+				case *ssa.UnOp:
+					if _, ok := x.X.(*ssa.Global); ok {
+						continue
+					}
+				}
+				for _, op := range ins.Operands(nil) {
+					if op != nil && *op != nil {
+						if g, ok := (*op).(*ssa.Global); ok {
+							bad[g] = true
+						}
+					}
+				}
+			}
+		}
+	}
+	// the synthetic package initialisers are not in w.funcs when they have no source; scan them too
+	for path, p := range w.pkgs {
+		if !w.inModule(path) {
+			continue
+		}
+		if initFn := p.Func("init"); initFn != nil {
+			for _, b := range initFn.Blocks {
+				for _, ins := range b.Instrs {
+					if st, ok := ins.(*ssa.Store); ok {
+						if g, ok := st.Addr.(*ssa.Global); ok {
+							if c, isC := st.Val.(*ssa.Const); isC {
+								if prev, dup := initStore[g]; dup && prev != c {
+									bad[g] = true
+								}
+								initStore[g] = c
+							} else {
+								bad[g] = true
+							}
+						}
+					}
+				}
+			}
+		}
+	}
+	for g, c := range initStore {
+		if !bad[g] && g.Pkg != nil && w.inModule(g.Pkg.Pkg.Path()) {
+			w.constGlobals[g] = c
+		}
+	}
 }
